@@ -15,6 +15,7 @@ import GfsProofs.ClosedLemmas
 import GfsProps.C13
 import GfsGen.Facts
 import GfsModel.Expected
+import GfsModel.ExpectedSrc
 
 namespace Gfs.Props.C14
 open Gfs Gfs.Spec Gfs.Proofs
@@ -80,5 +81,10 @@ theorem C14_no_overflow (a b n idx v : Int)
     `l.blocks` only in the InclusiveRanges accessors, and AppendUnique tests for an empty
     block list before its candidate loop -/
 theorem C14_loop_structure : Gfs.Gen.loopFacts = Gfs.expectedLoopFacts := by decide
+
+/-- the declarations of /repo this property's model and specification were written from are,
+    on this run, the ones the model was last aligned with (digest of their comment- and
+    layout-insensitive fingerprints, re-extracted by tools/gofacts) -/
+theorem C14_source : Gfs.Gen.sourceDigestC14 = Gfs.expectedSourceDigestC14 := by decide
 
 end Gfs.Props.C14
